@@ -60,6 +60,12 @@ def scopes(chk):
     p.update({'Budget': 6, 'TextPool': ['t'], 'MathTextPool': ['x'], 'CmdNames': ['a'], 'EnvNames': [], 'ListNames': [], 'MathKinds': ['$'] if quick else KINDS,
               'MEnvNames': [], 'Leaves': [], 'MaxSib': 2, 'MaxArgs': 1, 'MaxDepth': 4, 'ExtraQueries': ['a']})
     sc.append(('nested-math', p))
+    # ordinary commands that merely begin like a sizing prefix, next to real sizing commands; brace-less \frac12
+    p = dict(common)
+    p.update({'Budget': 4, 'TextPool': ['t'], 'MathTextPool': ['12', '_i', ' x'], 'CmdNames': ['bigcup', 'rightarrow', 'leftarrow', 'Biggl', 'frac'], 'EnvNames': [],
+              'ListNames': [], 'MathKinds': ['$', '\\['], 'MEnvNames': [], 'Leaves': [cmd0('big['), cmd0('right)'), cmd0('left['), cmd0('Bigg(')],
+              'MaxSib': 3, 'MaxArgs': 1, 'MaxDepth': 2, 'ExtraQueries': ['frac', 'bigcup']})
+    sc.append(('lookalikes', p))
     return sc
 
 
